@@ -81,10 +81,21 @@ def slots(prog, run):
                 lst_names = [astq.src(e) for e in lst.elts]
             elif isinstance(lst, ast.Name):
                 # lista = [..] assigned just before
-                d = [s_ for s_ in ast.walk(m.node) if isinstance(s_, ast.Assign) and any(isinstance(t, ast.Name) and t.id == lst.id for t in s_.targets)
-                     and s_.lineno <= c.lineno and isinstance(s_.value, (ast.List, ast.Tuple))]
-                if d:
-                    lst_names = [astq.src(e) for e in sorted(d, key=lambda s_: s_.lineno)[-1].value.elts]
+                # the last assignment of the list that precedes the call, walking outwards through the enclosing statement lists
+                cur = st if st is not None else c
+                found = None
+                while cur is not None and found is None:
+                    par = pm.get(cur)
+                    for field in ("body", "orelse", "finalbody"):
+                        blk = getattr(par, field, None) if par is not None else None
+                        if isinstance(blk, list) and cur in blk:
+                            for prev in reversed(blk[:blk.index(cur)]):
+                                if isinstance(prev, ast.Assign) and any(isinstance(t, ast.Name) and t.id == lst.id for t in prev.targets):
+                                    found = prev
+                                    break
+                    cur = par
+                if found is not None and isinstance(found.value, (ast.List, ast.Tuple)):
+                    lst_names = [astq.src(e) for e in found.value.elts]
             tg_names = [astq.src(e) for e in tgt.elts]
             if lst_names is None:
                 run.ob("R-slots", m.qual, "filtered tables return to their variables", None, f"list argument `{astq.src(lst, 50)}` not traced to a literal", file=f, node=c, config=f"call#{n}")
